@@ -840,7 +840,7 @@ impl ProxyServer {
         mut http_connection_context: HttpConnectionContext,
         request: Request<Limited<Incoming>>,
     ) -> Result<Response<BoxBody<Bytes, hyper::Error>>> {
-        let (head, body) = request.into_parts();
+        let (mut head, body) = request.into_parts();
         let whole_body = match body.collect().await {
             Ok(data) => data.to_bytes(),
             Err(e) => {
@@ -851,6 +851,20 @@ impl ProxyServer {
                 return Ok(Self::empty_response(StatusCode::BAD_REQUEST));
             }
         };
+
+        // The body is forwarded as one buffer of known length. Describe it that way before signing:
+        // the http client rewrites a 'transfer-encoding' header for such a body (it drops it when the
+        // body is empty), and the host must receive exactly the header set that was signed.
+        if head
+            .headers
+            .remove(hyper::header::TRANSFER_ENCODING)
+            .is_some()
+        {
+            head.headers.insert(
+                hyper::header::CONTENT_LENGTH,
+                HeaderValue::from(whole_body.len()),
+            );
+        }
 
         http_connection_context.log(
             LoggerLevel::Trace,
